@@ -2,4 +2,6 @@
 // the value source and the per-property scenario builders. Only `super::` paths are used
 // so that the tree can be mounted at any module path.
 pub mod src_trait;
+pub mod c01;
 pub mod c04;
+pub mod c14;
